@@ -63,6 +63,10 @@ def blocks(tier, seed):
     for rule in RULES + [0.25]:
         for part in range(4):
             out.append({"tracker": True, "rule": rule, "tier": tier, "part": part})
+    # the size filter also holds for refined results: smooth droplets x thresholds x a lattice of minimal radii around the droplet radius
+    for gk in ("cart2", "cart1", "polar", "cyl"):
+        for thr in (0.125, 0.25, 0.5, 0.75, "extrema", "mean"):
+            out.append({"refined_filter": True, "grid": gk, "threshold": thr})
     if tier == "thorough":
         add(cart((6,), (True,)), ALPH4, 2)
         add(cart((6,), (False,)), ALPH4, 2)
@@ -86,6 +90,12 @@ def tracker_images():
 
 
 def cases(block):
+    if block.get("refined_filter"):
+        for R, w in ((4.0, 1.0), (6.0, 2.0), (5.0, 0.5)):
+            for k in range(-5, 8):
+                for modes in ((0, 2) if block["grid"] in ("cart2", "polar") else (0,)):
+                    yield {"refined_filter": True, "grid": block["grid"], "threshold": block["threshold"], "R": R, "w": w, "minr": R + 0.5 * k + 0.13, "modes": modes}
+        return
     if block.get("tracker"):
         imgs = tracker_images()
         maps = [(1.0, 0.0), (0.5, -1.0), (4.0, 3.0), (2.0**-12, 1024.0)]
@@ -138,6 +148,30 @@ def run_case(case, ctx):
 
     if case.get("tracker"):
         return run_tracker(case, ctx)
+    if case.get("refined_filter"):
+        from droplets import DiffuseDroplet, Emulsion
+
+        gk, R, w, minr = case["grid"], case["R"], case["w"], case["minr"]
+        g = {"cart2": {"kind": "cart", "shape": [30, 28], "dx": [1.0, 1.0], "origin": [0.0, 0.0], "periodic": [True, False]}, "cart1": cart((40,), (False,)),
+             "polar": {"kind": "polar", "n": 24, "R": 24.0}, "cyl": {"kind": "cyl", "shape": [14, 36], "R": 14.0, "z": [-4.0, 32.0], "periodic_z": False}}[gk]
+        grid = geom.make_grid(g)
+        c = {"cart2": [14.3, 13.8], "cart1": [19.4], "polar": [0.0, 0.0], "cyl": [0.0, 0.0, 13.7]}[gk]
+        field = Emulsion([DiffuseDroplet(np.array(c), R, w)]).get_phasefield(grid)
+        tags = {"grid": g["kind"], "rule": "refined-filter", "threshold": str(case["threshold"])}
+        try:
+            plain = locate_droplets(field, threshold=case["threshold"], minimal_radius=minr, modes=case["modes"])
+            em = locate_droplets(field, threshold=case["threshold"], minimal_radius=minr, refine=True, modes=case["modes"])
+            free = locate_droplets(field, threshold=case["threshold"], minimal_radius=0, refine=True, modes=case["modes"])
+            ctx.op(3)
+        except Exception as e:  # noqa
+            ctx.check("C18.no-raise", False, {"exc": repr(e)[:300]}, tags)
+            return
+        ctx.check("C18.filter", all(d.radius > minr for d in em) and all(d.radius > minr for d in plain), {"minimal_radius": minr, "refined": [float(d.radius) for d in em], "unrefined": [float(d.radius) for d in plain]}, tags)
+        if len(plain) and any(d.radius <= minr for d in free):
+            ctx.count("cluster-above-but-refined-droplet-below-the-minimal-radius")
+        if len(em):
+            ctx.count("refined-results-passing-the-filter")
+        return
     g, alph = case["grid"], case["alph"]
     shape = tuple(g["shape"]) if "shape" in g else (g["n"],)
     base = np.array([alph[i] for i in case["cells"]], float).reshape(shape)
@@ -280,4 +314,4 @@ def run_tracker(case, ctx):
 
 
 def expected_positive(tier):
-    return ["C18.same-as-mask", "C18.affine", "C18.filter", "C18.otsu-definition", "non-constant-image", "filter-removed-some", "filter-kept-some", "tracker-frames", "C18.own-radial-model", "annular-grids"]
+    return ["C18.same-as-mask", "C18.affine", "C18.filter", "C18.otsu-definition", "non-constant-image", "filter-removed-some", "filter-kept-some", "tracker-frames", "C18.own-radial-model", "annular-grids", "cluster-above-but-refined-droplet-below-the-minimal-radius", "refined-results-passing-the-filter"]
